@@ -640,14 +640,20 @@ func AudioOnlySdp(actl string) string {
 		"m=audio 0 RTP/AVP 0\r\na=control:" + actl + "\r\n"
 }
 
-// WaitUntil polls cond (no sleep longer than 200µs) until it holds or the watchdog expires.
+// waitBudget: WaitUntil waits up to the watchdog for a condition that the unchanged code always
+// reaches within microseconds.  Once a wait has expired (something leaks: a finding is reported by
+// the caller) later waits are cut short so that the run still ends in reasonable time.
+var waitBudget = Watchdog
+
+// WaitUntil polls cond (no sleep longer than 100µs) until it holds or the budget expires.
 func WaitUntil(cond func() bool) bool {
-	deadline := time.Now().Add(Watchdog)
+	deadline := time.Now().Add(waitBudget)
 	for i := 0; ; i++ {
 		if cond() {
 			return true
 		}
 		if time.Now().After(deadline) {
+			waitBudget = 300 * time.Millisecond
 			return false
 		}
 		if i < 50 {
